@@ -67,7 +67,7 @@ def walkFuel (src : NoteSrc) : Nat := src.size.toNat / 12 + 1
 /-- `process_section()` : the constructor's computation of `note_start_positions` -/
 def process (e : Enc) (src : NoteSrc) : M (List (BitVec 64)) :=
   if note_walk_empty src.data.isNone src.size then pure []
-  else walk e src (walkFuel src) 0
+  else walk e src (walkFuel src) note_walk_start
 
 /-- `get_notes_num()` -/
 def num (pos : List (BitVec 64)) : BitVec 32 := note_num (BitVec.ofNat 64 pos.length)
@@ -108,7 +108,7 @@ def padIf (site : String) (unaligned : Bool) (n : BitVec 64) : M Bytes :=
 /-- the descriptor part of the buffer (`desc = none` is a null pointer) -/
 def descPart (desc : Option Bytes) (descSize : BitVec 32) : M Bytes :=
   if note_add_has_desc desc.isNone descSize then do
-    let d ← rdRange "add_note/desc" desc 0 descSize.toNat
+    let d ← rdRange "add_note/desc" desc 0 (note_add_desc_len descSize).toNat
     let dpad ← padIf "add_note/desc-pad" (note_add_desc_unaligned descSize note_add_align)
       (note_add_desc_pad note_add_align descSize)
     pure (d ++ dpad)
@@ -118,8 +118,9 @@ def descPart (desc : Option Bytes) (descSize : BitVec 32) : M Bytes :=
 def encodeBuf (e : Enc) (type : BitVec 32) (name : Bytes) (desc : Option Bytes) (descSize : BitVec 32) :
     M Bytes := do
   let nameLen := note_add_namelen (BitVec.ofNat 64 name.length)
-  let head := wrField e 4 nameLen.toNat ++ wrField e 4 descSize.toNat ++ wrField e 4 type.toNat ++
-    name ++ [0]
+  let head := wrField e 4 nameLen.toNat ++ wrField e (note_add_descsz_len note_add_align).toNat descSize.toNat ++
+    wrField e (note_add_type_len note_add_align).toNat type.toNat ++
+    name ++ List.replicate note_add_nul_count.toNat (UInt8.ofBitVec note_add_nul_char)
   let npad ← padIf "add_note/name-pad" (note_add_name_unaligned nameLen note_add_align)
     (note_add_name_pad note_add_align nameLen)
   let tail ← descPart desc descSize
@@ -137,7 +138,7 @@ def add (e : Enc) (b : SecBuf) (pos : List (BitVec 64)) (type : BitVec 32) (name
     (desc : Option Bytes) (descSize : BitVec 32) : M (SecBuf × List (BitVec 64)) := do
   let buf ← encodeBuf e type name desc descSize
   let b' ← appendStr b buf
-  pure (b', pos ++ [b.size])
+  pure (b', pos ++ [note_add_start b.size])
 
 /-- the constructor on a section: `get_data()` (which makes lazily loaded bytes resident), then
     the walk -/
